@@ -96,6 +96,14 @@ def cases(seed, tier, shard, nshards):
             e = G.el('A', mult=big) if shard % 2 == 0 else G.el('A', branches=[G.br([G.el('B'), G.el('C', bond=2)], mult=big, between=shard)])
             ast = [G.el('X'), e, G.el('Y')]
             yield {'kind': 'stress', 'ast': ast, 'features': sorted(G.features(ast)) + ['stress']}
+    # multipliers beyond 255 (degree of polymerisation of a real chain) followed by a bond symbol, as node and as branch
+    big = [256, 257, 258, 300, 400, 259][(shard + seed) % 6]
+    for form in ('node', 'branch'):
+        if form == 'node':
+            ast = [G.el('X'), G.el('PEO', mult=big, annot=rng.choice([None, 'q=1'])), G.el('OH', bond=rng.choice([0, 2, 3, 4]))]
+        else:
+            ast = [G.el('X'), G.el('A', branches=[G.br([G.el('B'), G.el('C', bond=2)], mult=big, between=rng.choice([0, 2, 3]))]), G.el('Y', bond=rng.choice([2, 3]))]
+        yield {'kind': 'stress', 'ast': ast, 'features': sorted(G.features(ast)) + ['stress', 'multiplier_over_255_then_bond_symbol']}
 
 
 def _graph_attr_keys(g):
